@@ -886,6 +886,14 @@ def kernel_rounding(ctx, g, C32, n, tab):
         rlat.astype(np.float64) - lat32.astype(np.float64) * math.pi / 180).max()))
     tab["eps_lon"] = max(tab["eps_lon"], float(np.abs(
         rlon.astype(np.float64) - lon32.astype(np.float64) * math.pi / 180).max()))
+    # round 5: theorem rRad_error — |computed radians - exact| <= ((1+u)^3 - 1) |x| pi / 180
+    for x32, r32 in ((lat32, rlat), (lon32, rlon)):
+        x64 = np.abs(x32.astype(np.float64))
+        nz = x64 > 0
+        if nz.any():
+            bnd = ((1 + U32) ** 3 - 1) * x64[nz] * math.pi / 180
+            err = np.abs(r32.astype(np.float64)[nz] - x32.astype(np.float64)[nz] * math.pi / 180)
+            tab["eps_ratio"] = max(tab.get("eps_ratio", 0.0), float((err / bnd).max()))
     if n > 8:
         return out
     F = {k: [Fr(float(v)) for v in t] for k, (t, _, _) in tabs.items()}
@@ -1029,6 +1037,7 @@ def suite_angular(ctx, GeoGrid, rng, ncases, K):
             "table_entries": tab["entries"], "pairs": tab["pairs"],
             "max_delta_in_units_of_2^-24": round(d_ / U32, 3),
             "max_eps_lat_log2": lg(ef), "max_eps_lon_log2": lg(el),
+            "max_eps_over_bound_of_theorem_rRad_error": round(tab.get("eps_ratio", 0.0), 4),
             "max_kernel_rounding_error_over_rcos_core_bound": round(tab["round"], 4),
             "bound_of_the_theorem_at_the_measured_values_log2": lg(bound),
             "max_abs_err_observed_log2": lg(stats["abs"]),
